@@ -271,10 +271,31 @@ class FD:
                 return self.resolver(d)
             except KeyError:
                 pass
+        if d is not None and d.count('.') == 1 and self.sym is not None and self._mods and self._mods[-1] is not None \
+                and d.split('.')[0] not in env:
+            # `import operator as _operator`: canonical name of a stdlib module imported under an alias
+            b = self.sym.lookup(self._mods[-1].name, d.split('.')[0])
+            if b is not None and b.kind == 'import' and b.target in ('operator', 're', 'math', 'ast', 'sys'):
+                d = b.target + '.' + e.attr
         if d is not None and d.startswith('ast.') and d.count('.') == 1 and 'ast' not in env:
             import ast as _ast
             if isinstance(getattr(_ast, e.attr, None), type):
                 return d    # an ast class, kept symbolic ('ast.Lt'); isinstance hooks of the harness interpret it
+        if d is not None and d.startswith('operator.') and d.count('.') == 1 and 'operator' not in env:
+            import operator as _op
+            f = getattr(_op, e.attr, None)
+            if callable(f):
+                def opfn(*a, _f=f):
+                    if any(x is UNKNOWN or isinstance(x, (Opaque, Obj)) for x in a):
+                        raise Inconclusive('fdeval: operator.%s on a non-concrete operand' % e.attr)
+                    try:
+                        return _f(*a)
+                    except ZeroDivisionError:
+                        raise Raised('ZeroDivisionError')
+                    except TypeError as ex:
+                        raise Raised('TypeError', str(ex))
+                opfn._fd_callable = True
+                return opfn
         if d in ('sys.version_info', 'sys.platform') and 'sys' not in env:
             # the platform the analysis (and the pinned suite) runs on: CPython of /venv, not Skulpt
             import sys as _sys
@@ -328,38 +349,40 @@ class FD:
         return Opaque('fstring', truth=True if any(isinstance(v, ast.Constant) and v.value
                                                    for v in e.values) else None)
 
+    def _comprehend(self, generators, env, emit):
+        """Run the generator clauses (possibly several) and call emit(inner_env) for every binding."""
+        if any(g.is_async for g in generators):
+            raise Inconclusive('fdeval: async comprehension')
+
+        def go(i, inner):
+            if i == len(generators):
+                emit(inner)
+                return
+            g = generators[i]
+            it = self.eval(g.iter, inner)
+            if it is UNKNOWN or isinstance(it, (Opaque, Obj)) or it is ERR:
+                raise Inconclusive('fdeval: comprehension over a non-concrete iterable')
+            try:
+                items = list(it)
+            except TypeError as ex:
+                raise Raised('TypeError', str(ex))
+            for item in items:
+                self.assign(g.target, item, inner)
+                if all(truth(self.eval(c, inner)) for c in g.ifs):
+                    go(i + 1, inner)
+        go(0, dict(env))
+
     def e_ListComp(self, e, env):
-        if len(e.generators) != 1 or e.generators[0].is_async:
-            raise Inconclusive('fdeval: nested comprehension')
-        g = e.generators[0]
-        it = self.eval(g.iter, env)
-        if it is UNKNOWN or isinstance(it, (Opaque, Obj)) or it is ERR:
-            raise Inconclusive('fdeval: comprehension over a non-concrete iterable')
         out = []
-        inner = dict(env)
-        try:
-            items = list(it)
-        except TypeError as ex:
-            raise Raised('TypeError', str(ex))
-        for item in items:
-            self.assign(g.target, item, inner)
-            if all(truth(self.eval(c, inner)) for c in g.ifs):
-                out.append(self.eval(e.elt, inner))
+        self._comprehend(e.generators, env, lambda inner: out.append(self.eval(e.elt, inner)))
         return out
 
     def e_DictComp(self, e, env):
-        if len(e.generators) != 1:
-            raise Inconclusive('fdeval: nested comprehension')
-        g = e.generators[0]
-        it = self.eval(g.iter, env)
-        if it is UNKNOWN or isinstance(it, (Opaque, Obj)) or it is ERR:
-            raise Inconclusive('fdeval: comprehension over a non-concrete iterable')
         out = {}
-        inner = dict(env)
-        for item in list(it):
-            self.assign(g.target, item, inner)
-            if all(truth(self.eval(c, inner)) for c in g.ifs):
-                out[self.eval(e.key, inner)] = self.eval(e.value, inner)
+
+        def emit(inner):
+            out[self.eval(e.key, inner)] = self.eval(e.value, inner)
+        self._comprehend(e.generators, env, emit)
         return out
 
     def e_SetComp(self, e, env):
@@ -625,6 +648,9 @@ class FD:
             return self.call_function(self.functions[name], args, kwargs)
         if name in _BUILTINS and '.' in name:
             return _BUILTINS[name](*[self.eval(a, env) for a in e.args])
+        if isinstance(e.func, ast.Name) and e.func.id in env and (
+                env[e.func.id] is None or isinstance(env[e.func.id], (int, float, str, list, dict, tuple, set))):
+            raise Raised('TypeError', "'%s' object is not callable" % type(env[e.func.id]).__name__)
         if isinstance(e.func, ast.Name) and e.func.id in env and callable(env[e.func.id]):
             args = [self.eval(a, env) for a in e.args]
             kwargs = {k.arg: self.eval(k.value, env) for k in e.keywords}
@@ -926,6 +952,28 @@ class FD:
                 raise Raised('TypeError', str(ex))
             for item in items:
                 self.assign(st.target, item, env)
+                try:
+                    self.block(st.body, env)
+                except _Break:
+                    broke = True
+                    break
+                except _Continue:
+                    continue
+            if not broke:
+                self.block(st.orelse, env)
+            return
+        if isinstance(st, ast.While):
+            broke = False
+            rounds = 0
+            while True:
+                t = truth(self.eval(st.test, env))
+                if t is None:
+                    raise Inconclusive('fdeval: while over an unknown condition')
+                if not t:
+                    break
+                rounds += 1
+                if rounds > 10000:
+                    raise Inconclusive('fdeval: while loop bound')
                 try:
                     self.block(st.body, env)
                 except _Break:
